@@ -27,7 +27,7 @@ Json Plan::to_json(bool with_data) const {
 		fs.push(o);
 	}
 	j.set("files", fs);
-	j.set("target", target).set("pponly", pponly).set("via_stdin", via_stdin).set("stdin_pipe", stdin_pipe).set("dash_o", dash_o).set("stack_shift", stack_shift).set("argv0", argv0).set("alt_name", alt_name);
+	j.set("target", target).set("pponly", pponly).set("via_stdin", via_stdin).set("stdin_pipe", stdin_pipe).set("dash_o", dash_o).set("stack_shift", stack_shift).set("argv0", argv0).set("alt_name", alt_name).set("argstyle", argstyle);
 	j.set("placement", placement).set("gapmax", gapmax).set("fill", fill).set("free_policy", free_policy).set("realloc_policy", realloc_policy).set("zero_policy", zero_policy);
 	j.set("alloc_seed", hex64(alloc_seed)).set("chunk", chunk).set("outbuf", outbuf).set("io_seed", hex64(io_seed)).set("trip_seed", hex64(trip_seed));
 	Json fl = Json::arr();
@@ -77,6 +77,7 @@ bool Plan::from_json(const Json &j, Plan &p, const std::string &repo) {
 	p.stack_shift = (int)j.geti("stack_shift");
 	p.argv0 = (int)j.geti("argv0");
 	p.alt_name = (int)j.geti("alt_name");
+	p.argstyle = (int)j.geti("argstyle");
 	p.placement = (int)j.geti("placement");
 	p.gapmax = (int)j.geti("gapmax");
 	p.fill = (int)j.geti("fill");
@@ -104,7 +105,7 @@ bool Plan::from_json(const Json &j, Plan &p, const std::string &repo) {
 }
 
 bool Plan::is_null_schedule() const {
-	return !via_stdin && !stdin_pipe && !argv0 && !alt_name && !dash_o && !stack_shift && !placement && !gapmax && !fill && !free_policy && !realloc_policy && !zero_policy && !chunk && !outbuf && faults.empty();
+	return !via_stdin && !stdin_pipe && !argv0 && !alt_name && !argstyle && !dash_o && !stack_shift && !placement && !gapmax && !fill && !free_policy && !realloc_policy && !zero_policy && !chunk && !outbuf && faults.empty();
 }
 
 // ------------------------------------------------------------ stress family
@@ -558,6 +559,7 @@ static void perturb_schedule(Plan &p, Rng &r, bool invocation) {
 		if (r.coin(1, 2)) p.stack_shift = 16 * (int)(1 + r.below(4096));
 		if (r.coin(1, 4)) p.argv0 = 1 + (int)r.below(6);
 		if (r.coin(1, 4)) p.alt_name = 1 + (int)r.below(4);
+		if (r.coin(1, 4)) p.argstyle = 1 + (int)r.below(3);
 	}
 }
 
@@ -954,6 +956,7 @@ static Plan minimise(Plan p, const Verdict &want) {
 	{ Plan t = p; t.stack_shift = 0; attempt(t); }
 	{ Plan t = p; t.argv0 = 0; attempt(t); }
 	{ Plan t = p; t.alt_name = 0; attempt(t); }
+	{ Plan t = p; t.argstyle = 0; attempt(t); }
 	{ Plan t = p; t.placement = 0; attempt(t); }
 	{ Plan t = p; t.gapmax = 0; attempt(t); }
 	{ Plan t = p; t.free_policy = 0; attempt(t); }
@@ -1163,6 +1166,7 @@ int main(int argc, char **argv) {
 		if (p.stack_shift) st.axes["stack-shift"]++;
 		if (p.argv0) st.axes["argv0"]++;
 		if (p.alt_name) st.axes["input-path-name"]++;
+		if (p.argstyle) st.axes["option-spelling"]++;
 		if (p.target == 0) st.axes["no -t option"]++;
 		if (p.files.size() > 1) st.axes["multi-file"]++;
 		st.workloads[p.files[0].source.compare(0, 7, "stress:") == 0 ? "stress:" + p.files[0].source.substr(7, p.files[0].source.find(':', 7) - 7) : p.files[0].source.substr(0, p.files[0].source.find(':'))]++;
